@@ -102,6 +102,19 @@ def dispatch_table(chk, db, rule):
                     why.append('handler status is not what is returned')
                 if not disp[0].args or repr(disp[0].args[0]) != 'p:receiver':
                     why.append('Dispatch does not receive the receiver first')
+                # the handler that runs is the bound object itself, not a copy of it (a stateful handler must keep its state)
+                obj = ir.strip_all_casts((disp[0].expr or {}).get('obj') or {})
+                if obj.get('k') == 'ref' and obj.get('dk') == 'local':
+                    decl = None
+                    for g in db.fns:
+                        if g.get('_tu') is f.get('_tu') and g.get('rect') == 'nop::InterfaceBindings' and 'body' in g:
+                            for y in ir.walk(g['body']):
+                                if y.get('k') == 'decl':
+                                    for v in y['vars']:
+                                        if v.get('id') == obj.get('id'):
+                                            decl = v
+                    if decl is None or not decl.get('t', '').rstrip().endswith('&'):
+                        why.append('the binding is copied into a local (%s) and the copy is dispatched' % (decl or {}).get('t', '?')[:60])
             else:
                 misses += 1
                 if true_matches or not (isinstance(p.ret, StatusVal) and p.ret.kind == 'err' and p.ret.arg == 'InvalidInterfaceMethod'):
